@@ -12,7 +12,7 @@ for i in range(0, len(triples), 3):
     path = "/repo/" + f
     src = open(path).read()
     if src.count(old) != 1:
-        print(f"MUTANT {f}: `{old}` occurs {src.count(old)} times -- skipped")
+        print(f"MUTANT {f}: `{' '.join(old.split())[:50]}` occurs {src.count(old)} times -- skipped")
         continue
     open(path, "w").write(src.replace(old, new))
     try:
@@ -21,6 +21,7 @@ for i in range(0, len(triples), 3):
             first = next((l.strip() for l in r.stdout.splitlines() if l.startswith("  ")), "")
             if r.returncode == 2:
                 first = next((l.strip() for l in r.stdout.splitlines() if "ANALYSIS-ERROR" in l), first)
-            print(f"MUTANT {f}: `{old}` -> `{new}` | {p} exit={r.returncode} {first[:170]}")
+            lab = " ".join(old.split())[:40] + " -> " + " ".join(new.split())[:40]
+            print(f"MUTANT {f.split('/')[-1]}: {lab} | {p} exit={r.returncode} {first[:150]}")
     finally:
         open(path, "w").write(src)
